@@ -80,6 +80,32 @@ func injectYields(root string, fine bool) (int, int, error) {
 			}
 			b.List = out
 		}
+		// blocking synchronisation must be owned by the simulator too: a task
+		// that is pre-empted while it holds a real sync.Mutex (or runs inside
+		// a sync.Once) would make the next task block in the Go runtime, where
+		// the cooperative scheduler cannot see it. The types are replaced by
+		// cooperative ones with the same methods.
+		usesSync := false
+		ast.Inspect(f, func(n ast.Node) bool {
+			if sel, ok := n.(*ast.SelectorExpr); ok {
+				if id, ok := sel.X.(*ast.Ident); ok && id.Name == "sync" && id.Obj == nil {
+					switch sel.Sel.Name {
+					case "Mutex", "RWMutex", "Once":
+						id.Name = "simhook"
+						usesSync = true
+						sites = append(sites, fmt.Sprintf("%s:%d(sync.%s)", rel, fset.Position(sel.Pos()).Line, sel.Sel.Name))
+					}
+				}
+			}
+			return true
+		})
+		if usesSync {
+			// keep the "sync" import used
+			f.Decls = append(f.Decls, &ast.GenDecl{Tok: token.VAR, Specs: []ast.Spec{&ast.ValueSpec{
+				Names: []*ast.Ident{ast.NewIdent("_")},
+				Type:  &ast.SelectorExpr{X: ast.NewIdent("sync"), Sel: ast.NewIdent("Locker")},
+			}}})
+		}
 		ast.Inspect(f, func(n ast.Node) bool {
 			switch s := n.(type) {
 			case *ast.ForStmt:
@@ -138,6 +164,7 @@ func injectYields(root string, fine bool) (int, int, error) {
 	sb.WriteString("// Package simhook is generated into the scratch copy of qframe by vcheck.\npackage simhook\n\n")
 	sb.WriteString("// Hook is called at every instrumented site when set.\nvar Hook func(site int)\n\n")
 	sb.WriteString("// Yield is the injected scheduling point.\nfunc Yield(site int) {\n\tif Hook != nil {\n\t\tHook(site)\n\t}\n}\n\n")
+	sb.WriteString(coopSync)
 	sb.WriteString("// Sites maps a site id to file:line of the instrumented statement.\nvar Sites = []string{\n")
 	for _, s := range sites {
 		sb.WriteString("\t" + strconv.Quote(s) + ",\n")
@@ -148,3 +175,108 @@ func injectYields(root string, fine bool) (int, int, error) {
 	}
 	return len(sites), files, nil
 }
+
+// coopSync is the cooperative replacement of the blocking sync types: waiting
+// is a scheduling point, so the scheduler decides who gets the lock next and
+// no task ever blocks inside the Go runtime. Held counts locks currently held
+// (and Once bodies in progress): harness code must not call into qframe while
+// a parked task holds one.
+const coopSync = `// Held is the number of cooperative locks currently held.
+var Held int
+
+const lockSite = -2
+
+// Mutex replaces sync.Mutex in the scratch copy.
+type Mutex struct{ locked bool }
+
+func (m *Mutex) Lock() {
+	for m.locked {
+		waitUntil(func() bool { return !m.locked })
+	}
+	m.locked = true
+	Held++
+}
+func (m *Mutex) TryLock() bool {
+	if m.locked {
+		return false
+	}
+	m.locked = true
+	Held++
+	return true
+}
+func (m *Mutex) Unlock() {
+	if !m.locked {
+		panic("sync: unlock of unlocked mutex")
+	}
+	m.locked = false
+	Held--
+}
+
+// RWMutex replaces sync.RWMutex.
+type RWMutex struct {
+	writer  bool
+	readers int
+}
+
+func (m *RWMutex) Lock() {
+	for m.writer || m.readers > 0 {
+		waitUntil(func() bool { return !m.writer && m.readers == 0 })
+	}
+	m.writer = true
+	Held++
+}
+func (m *RWMutex) Unlock() { m.writer = false; Held-- }
+func (m *RWMutex) RLock() {
+	for m.writer {
+		waitUntil(func() bool { return !m.writer })
+	}
+	m.readers++
+	Held++
+}
+func (m *RWMutex) RUnlock() { m.readers--; Held-- }
+func (m *RWMutex) TryLock() bool {
+	if m.writer || m.readers > 0 {
+		return false
+	}
+	m.writer = true
+	Held++
+	return true
+}
+func (m *RWMutex) TryRLock() bool {
+	if m.writer {
+		return false
+	}
+	m.readers++
+	Held++
+	return true
+}
+
+// Once replaces sync.Once.
+type Once struct{ done, running bool }
+
+func (o *Once) Do(f func()) {
+	for o.running {
+		waitUntil(func() bool { return !o.running })
+	}
+	if o.done {
+		return
+	}
+	o.running = true
+	Held++
+	defer func() { o.running, o.done = false, true; Held-- }()
+	f()
+}
+
+// Block parks the calling task until cond holds (installed by the engine:
+// the scheduler's Block). A waiting task is not runnable, so a priority
+// schedule cannot starve the lock holder.
+var Block func(cond func() bool)
+
+func waitUntil(cond func() bool) {
+	if Block == nil {
+		panic("simhook: lock held with no scheduler running")
+	}
+	Block(cond)
+}
+
+`
